@@ -150,6 +150,24 @@ pub fn with_durs(mut p: Program, d0: Dur, d1: Dur, dcode: Dur) -> Program {
     p
 }
 
+/// One tracked struct whose fields come from the two cells, a function keyed by the struct that
+/// reads one tracked field, and a reader of the other: the struct's durability follows its
+/// creator's, and functions that read only its fields must notice when it is lowered.
+pub fn dur_struct(d0: Dur, d1: Dur, dcode: Dur) -> Program {
+    let p = Program {
+        name: "dur-struct".into(),
+        cells: vec![(1, Dur::Low), (0, Dur::Low)],
+        nodes: vec![
+            NodeDef::new(Kind::Mk, Ex::Mk(vec![ent(k(1), k(3), cell(0), cell(1), 0)])),
+            NodeDef::new(Kind::Ev, Ex::OnTs(0, 0, 0)),
+            NodeDef::new(Kind::Ev, Ex::add(Ex::Fld(0, 0, 2), Ex::OnTs(0, 0, 1))),
+        ],
+        ext: vec![0],
+        root0: None,
+    };
+    with_durs(p, d0, d1, dcode)
+}
+
 pub fn dur_alphabet(p: &Program) -> Vec<Op> {
     let mut a = Vec::new();
     for c in 0..2u8 {
@@ -201,6 +219,29 @@ pub fn untracked_set() -> Vec<Program> {
             });
         }
     }
+    // everything HIGH except cell 0: a function that starts (or stops) reading untracked state
+    // when a HIGH input changes, with the untracked value equal to the constant of the other
+    // branch (so the result is equal and may be backdated); one operation deeper ("deep-")
+    let hi_leafs: Vec<(&str, Ex)> = vec![
+        ("becomes", Ex::ifc(1, k(1), ext0())),
+        ("ceases", Ex::ifc(1, ext0(), k(1))),
+    ];
+    let hi_mids: Vec<(&str, Ex)> = vec![("call", call(0)), ("and1", Ex::and(call(0), k(1)))];
+    for (ln, l) in &hi_leafs {
+        for (mn, m) in &hi_mids {
+            v.push(Program {
+                name: format!("deep-ut-hi-{ln}-{mn}"),
+                cells: vec![(0, Dur::Low), (1, Dur::High)],
+                nodes: vec![
+                    NodeDef::new(Kind::Ev, l.clone()).dur(Dur::High),
+                    NodeDef::new(Kind::Ev, m.clone()).dur(Dur::High),
+                    NodeDef::new(Kind::Ev, Ex::add(call(1), Ex::and(call(0), k(2)))).dur(Dur::High),
+                ],
+                ext: vec![1],
+                root0: None,
+            });
+        }
+    }
     v
 }
 
@@ -213,6 +254,7 @@ pub fn untracked_alphabet(p: &Program) -> Vec<Op> {
         Op::Set(0, 0),
         Op::Set(0, 1),
         Op::Set(1, 1),
+        Op::Set(1, 0),
     ];
     for n in 0..p.nodes.len() as u8 {
         a.push(Op::Q(n));
@@ -750,6 +792,26 @@ pub fn acc_set() -> Vec<Program> {
             NodeDef::new(Kind::Ev, seq(vec![Ex::Push(7), k(7)])).dur(Dur::Never),
             NodeDef::new(Kind::Ev, seq(vec![Ex::Push(3), Ex::ifc(1, Ex::Push(9), k(0)), Ex::add(call(0), call(1))])),
             NodeDef::new(Kind::Ev, seq(vec![Ex::ifc(1, Ex::Push(5), k(0)), Ex::add(call(2), call(1))])),
+        ],
+        ext: vec![0],
+        root0: None,
+    });
+    // creators that push and also specify a value (an output edge), one of them never-change
+    v.push(Program {
+        name: "acc-pre-outputs".into(),
+        cells: vec![(0, Dur::Low), (1, Dur::Low)],
+        nodes: vec![
+            NodeDef::new(
+                Kind::Mk,
+                Ex::Mk(vec![ent_post(k(1), k(1), seq(vec![Ex::Push(7), k(1)]), k(5), vec![Post::Spec { cond: k(1), val: k(3) }])]),
+            )
+            .dur(Dur::Never),
+            NodeDef::new(
+                Kind::Mk,
+                Ex::Mk(vec![ent_post(k(1), k(2), seq(vec![Ex::Push(8), cell(0)]), k(5), vec![Post::Spec { cond: k(1), val: k(4) }])]),
+            ),
+            NodeDef::new(Kind::Ev, seq(vec![Ex::Push(3), Ex::add(Ex::Len(0), Ex::Len(1))])),
+            NodeDef::new(Kind::Ev, seq(vec![Ex::ifc(1, Ex::Push(5), k(0)), call(2)])),
         ],
         ext: vec![0],
         root0: None,
